@@ -207,11 +207,19 @@ type world struct {
 }
 
 func (w *world) tsoNow() time.Time {
-	ts, err := w.x.S.GetTSOAllocatorManager().HandleTSORequest(tso.GlobalDCLocation, 1)
-	if err != nil {
-		panic(err)
+	for try := 0; ; try++ {
+		ts, err := w.x.S.GetTSOAllocatorManager().HandleTSORequest(tso.GlobalDCLocation, 1)
+		if err == nil {
+			return time.Unix(ts.GetPhysical()/1000, ts.GetPhysical()%1000*int64(time.Millisecond))
+		}
+		// the member lost its 1 s leader lease (machine load): the running case will be dropped
+		leaderLost = true
+		if try > 200 {
+			panic(err)
+		}
+		_ = w.x.WaitLeader(60 * time.Second)
+		time.Sleep(100 * time.Millisecond)
 	}
-	return time.Unix(ts.GetPhysical()/1000, ts.GetPhysical()%1000*int64(time.Millisecond))
 }
 
 const gcKey = "gc/safe_point"
@@ -878,9 +886,8 @@ func (w *world) describe(c caseRec) {
 // finite gc_worker entry (its repair save).
 func (w *world) genSvcX(r *rng.R) op {
 	o := op{K: "svcx", ID: cleanIDs[r.Intn(len(cleanIDs))], TTL: int64(1000 + r.Intn(9000)), SP: pickSP(r), X: &xenv{}, Out: r.Pick(70, 15, 15)}
-	if r.Pct(10) {
-		o.TTL = 0
-	}
+	// (TTL > 0 always: with TTL <= 0 the call's first storage operation is the Remove of its own key, which a step for
+	// that key's expired entry would catch instead; the model has no fault on that removal)
 	if r.Pct(8) {
 		o.X.LR = 1 + r.Intn(2)
 	}
@@ -1169,6 +1176,9 @@ func main() {
 
 	var all []caseRec
 	emit := func(c caseRec, origin string) {
+		if !x.S.GetMember().IsLeader() {
+			leaderLost = true
+		}
 		if leaderLost {
 			leaderLost = false
 			R.Count("case:dropped-leadership-lost")
